@@ -11,14 +11,14 @@ Open Scope N_scope.
 
 Open Scope string_scope.
 
-(* the serde defaults, as translated from src/config/context.rs *)
+(* the serde defaults, as translated from src/config/context.rs: for each YAML key the value returned by the
+   function its #[serde(default = "..")] attribute names (whatever function and struct are called), and the set
+   of keys that have a default at all *)
 Theorem C16_defaults :
   c_default_use_cache = true /\ c_default_rust_structured = false /\
   c_default_rust_extensions = [[114; 115]] /\
-  In ("Config", "use_cache", "default_use_cache") serde_defaults /\
-  In ("RustConfig", "structured", "default_rust_structured") serde_defaults /\
-  In ("RustConfig", "extensions", "default_rust_extensions") serde_defaults.
-Proof. vm_compute. repeat split; auto 10. Qed.
+  serde_default_keys = ["extensions"; "rust"; "structured"; "use_cache"].
+Proof. vm_compute. repeat split. Qed.
 
 (* use_cache = false: the lock is not consulted (the run is the same whatever the lock holds) and
    no lock operation is performed -- edit mode; check mode performs no operation at all (C04) *)
